@@ -505,3 +505,55 @@ func VC_C07_anonymous_interface() {
 	verifAssert(vSvcAnon == nil, "C07.anonymous.reset-restores-previous-value")
 	verifReached("C07.anonymous")
 }
+
+// VC_C07_reassigned_between_rounds: two mock rounds on one variable through one builder
+// with the variable assigned by the program in between (a real implementation, or nil):
+// the second round dispatches to its replacement, and its Reset puts back the value the
+// variable held right before the second round - not the one from before the first.
+func VC_C07_reassigned_between_rounds() {
+	vEnv()
+	stub.VerifResetMmap()
+	implA, implB := &vImpl{n: 7}, &vImpl{n: 9}
+	vals := [3]vSvc{nil, implA, implB}
+	first, between := vals[verifChoice("first", 3)], vals[verifChoice("between", 3)]
+	vSvcA = first
+	t := reflect.TypeOf(&vSvcA).Elem()
+	b := Create()
+	b.Interface(&vSvcA).Method("Alpha").Apply(vCbAlpha)
+	if verifBool("cancelOnly") {
+		b.Interface(&vSvcA).Cancel()
+	} else {
+		b.Reset()
+	}
+	verifAssert(vSvcA == first, "C07.rounds.first-round-restores")
+	vSvcA = between
+	second := verifChoice("second", 2)
+	name, cb, add := "Alpha", interface{}(vCbAlpha), 1
+	if second == 1 {
+		name, cb, add = "Gamma", interface{}(vCbGamma), 3
+	}
+	if verifBool("viaReturn") {
+		b.Interface(&vSvcA).Method(name).As(cb).Return(41)
+		add = -1
+	} else {
+		b.Interface(&vSvcA).Method(name).Apply(cb)
+	}
+	_, isImpl := vSvcA.(*vImpl)
+	verifAssert(vSvcA != nil && !isImpl, "C07.rounds.variable-holds-the-second-mock")
+	if vSvcA != nil && !isImpl {
+		x := verifInt("x")
+		f, recv, notImpl := vDispatch(unsafe.Pointer(&vSvcA), vSlotOf(t, name), "C07.rounds")
+		verifAssert(!notImpl && f != nil, "C07.rounds.second-round-method-mocked")
+		if !notImpl && f != nil {
+			got, p := vCall07(f, recv, x)
+			if add < 0 {
+				verifAssert(!p && got == 41, "C07.rounds.second-round-stub-delivered")
+			} else {
+				verifAssert(!p && got == x+add, "C07.rounds.second-round-reaches-replacement")
+			}
+		}
+	}
+	b.Reset()
+	verifAssert(vSvcA == between, "C07.rounds.second-reset-restores-the-value-before-the-second-round")
+	verifReached("C07.rounds")
+}
